@@ -377,7 +377,8 @@ def mkLayout32 (P : Params) (size bs0 : Nat) : Layout32 :=
   let spc := if spc0 = 0 then 1 else spc0
   let total := (size / bs) % two32
   let denom := (bs * spc + 8) % two32
-  let spf := (((4 * ((total + two32 - 32) % two32)) % two32 + denom - 1) % two32 / denom) % 65536
+  -- fix 911b8cc: the numerator carries 8*spc so that the two reserved FAT entries fit as well
+  let spf := ((((4 * ((total + two32 - 32) % two32)) % two32 + (8 * spc) % two32) % two32 + denom - 1) % two32 / denom) % 65536
   { bps := bs, spc, total, spf }
 
 /-- fat32.Create: geometry or refusal (`spf = 0` makes Create index an empty table: no filesystem) -/
